@@ -784,11 +784,39 @@ func ruleCtxPrecheck(c *Ctx, rule string, vf *vmFacts) {
 					}
 				}
 			})
+			// ... or the test lives in a predicate helper (`if contextDone(ctx) { return }`):
+			// a call on the way to the go statement, of a function that makes a
+			// non-blocking select on the Done() of its context parameter
+			preHelper := false
+			for _, ge := range guardEdges(g.Block()) {
+				cl, ok := ge.If.Cond.(*ssa.Call)
+				if !ok {
+					continue
+				}
+				h := cl.Call.StaticCallee()
+				if h == nil || len(h.Blocks) == 0 || !strings.HasPrefix(funcPkgPath(h), modPath) {
+					continue
+				}
+				eachInstr(h, func(x ssa.Instruction) {
+					sel, ok := x.(*ssa.Select)
+					if !ok || sel.Blocking {
+						return
+					}
+					for _, st := range sel.States {
+						if dc, ok := st.Chan.(*ssa.Call); ok && dc.Call.IsInvoke() && dc.Call.Method.Name() == "Done" {
+							if _, isParam := dc.Call.Value.(*ssa.Parameter); isParam {
+								preHelper = true
+								hasCtx = true
+							}
+						}
+					}
+				})
+			}
 			if !hasCtx {
 				return
 			}
 			n++
-			c.Check(rule, fnName(fn)+" | go VM.Run", l.Pos(g.Pos()), pre != nil, "a non-blocking select on ctx.Done() dominates the start of the run goroutine", "the run goroutine is started without first testing the context: with Run clearing the abort flag at entry, a cancellation that is already pending is erased and the script never stops")
+			c.Check(rule, fnName(fn)+" | go VM.Run", l.Pos(g.Pos()), pre != nil || preHelper, "a non-blocking select on ctx.Done() dominates the start of the run goroutine", "the run goroutine is started without first testing the context: with Run clearing the abort flag at entry, a cancellation that is already pending is erased and the script never stops")
 		})
 	}
 	if n == 0 {
@@ -933,6 +961,7 @@ func ruleOperandDecode(c *Ctx, rule string, vf *vmFacts, onlyArm string) {
 				}
 			}
 			var leaves []leaf
+			var bases []ssa.Value
 			okTree := true
 			var collect func(v ssa.Value)
 			collect = func(v ssa.Value) {
@@ -983,21 +1012,54 @@ func ruleOperandDecode(c *Ctx, rule string, vf *vmFacts, onlyArm string) {
 					okTree = false
 					return
 				}
-				// index = x + k
+				// index = base + k (k = 0 when the index is not a sum with a constant:
+				// `ip+off` next to `ip+off+1` in a helper that takes the operand's offset)
 				off := int64(0)
+				var base ssa.Value = ia.Index
 				if ab, ok := ia.Index.(*ssa.BinOp); ok && ab.Op == token.ADD {
 					if k, ok := constInt64(ab.Y); ok {
-						off = k
-					} else {
-						okTree = false
-						return
+						off, base = k, ab.X
 					}
 				}
 				leaves = append(leaves, leaf{off, shift})
+				bases = append(bases, base)
 			}
 			collect(root)
 			if !okTree || len(leaves) < 2 {
 				return
+			}
+			// one common base: either all offsets are relative to the same value, or the
+			// offset-0 leaf's index IS that value (ip+off / (ip+off)+1)
+			var common ssa.Value
+			for i, lf := range leaves {
+				if lf.off != 0 {
+					common = bases[i]
+				}
+			}
+			var eqBase func(a, b ssa.Value, d int) bool
+			eqBase = func(a, b ssa.Value, d int) bool {
+				if a == b || exprEq(a, b) {
+					return true
+				}
+				if d > 3 {
+					return false
+				}
+				if ua, ok := a.(*ssa.UnOp); ok {
+					if ub, ok := b.(*ssa.UnOp); ok && ua.Op == token.MUL && ub.Op == token.MUL {
+						return samePath(ua.X, ub.X) // two reads of the same field in one expression
+					}
+				}
+				if ba, ok := a.(*ssa.BinOp); ok {
+					if bb, ok := b.(*ssa.BinOp); ok && ba.Op == bb.Op {
+						return eqBase(ba.X, bb.X, d+1) && eqBase(ba.Y, bb.Y, d+1)
+					}
+				}
+				return false
+			}
+			for i := range leaves {
+				if common != nil && !eqBase(bases[i], common, 0) {
+					return // not an assembly of adjacent bytes of one stream position: another rule's business
+				}
 			}
 			n++
 			perFn[fn]++
